@@ -99,17 +99,22 @@ Init == \E s \in Scenarios : InitWith(s)
 \* what the collectors may put into Property.Injects for a point (order = registry iteration order)
 CollectChoices(pt) ==
   IF pt.tag = "func" THEN Perms(CompatSet(pt))
-  ELSE IF pt.byName = 0 THEN (IF pt.kind = "any" THEN {<<>>}
-                               ELSE IF sc.extra THEN {p \o p : p \in Perms(CompatSet(pt))}     \* both collectors, same registry order
-                               ELSE Perms(CompatSet(pt)))
+  ELSE IF pt.byName = 0 THEN (IF pt.kind = "any" THEN {<<>>} ELSE Perms(CompatSet(pt)))
   ELSE IF IsSlice(pt) \/ IsArr(pt) THEN {<<>>}     \* a name on a slice / array point is ignored
   ELSE IF pt.byName = -1 THEN {<<NIL>>}             \* GetMetaByName finds nothing: a nil is recorded
   ELSE IF FixF2 /\ ~Compat(pt, pop[pt.byName]) THEN {<<NIL>>}
   ELSE {<<pt.byName>>}
+\* with the second public collector registered (sc.extra) a by-type wire point is served twice, in the same registry order
+\* (stated as a predicate: TLC decides membership in Perms(S) without enumerating it)
+Doubled(pt) == sc.extra /\ pt.tag = "wire" /\ pt.byName = 0 /\ pt.kind # "any"
+CollectOK(pt, x) ==
+  IF Doubled(pt) THEN LET n == Cardinality(CompatSet(pt)) IN
+                      Len(x) = 2 * n /\ SubSeq(x, 1, n) \in Perms(CompatSet(pt)) /\ x = SubSeq(x, 1, n) \o SubSeq(x, 1, n)
+  ELSE x \in CollectChoices(pt)
 \* EVENT collected
 CollectWith(f) ==
   /\ phase = "collect" /\ status = "run"
-  /\ \A i \in 1..NP : f[i] \in CollectChoices(pts[i])
+  /\ \A i \in 1..NP : CollectOK(pts[i], f[i])
   /\ inj' = f /\ phase' = "filter"
   /\ UNCHANGED <<sc, status, res>>
 Collect == \E o \in Perms(Prov) :
